@@ -34,8 +34,8 @@ def r1_speculative(ctx, F):
     ctx.info["callgraph_full"] = dict(nodes=len(F.fns), edges=cg.edges)
     ns = natives(F)
     spec = [n for n in ns if n.speculative]
-    ctx.floor("C02.R1", "native registrations", len(ns), 130)
-    ctx.floor("C02.R1", "speculative_exec_safe registrations", len(spec), 55)
+    ctx.floor("C02.R1", "native registrations", len(ns), 130, inventory=True)
+    ctx.floor("C02.R1", "speculative_exec_safe registrations", len(spec), 55, inventory=True)
     sinks = {k: {u for u, f in F.fns.items() if re.search(p, f.qpath)} for k, p in SINKS.items()}
     for k, v in sinks.items():
         if not v and k != "print":
@@ -142,7 +142,7 @@ def r2_purity(ctx, F):
               "StmtsCompiled::expr drops an expression statement without is_pure_infallible being true", fn=se)
     # ExprCompiledBool::Const only from is_pure_infallible_to_bool == Some
     cons = all_aggregates(F, r"eval::compiler::expr_bool::ExprCompiledBool::Const$")
-    ctx.floor("C02.R2", "ExprCompiledBool::Const constructions", len(cons), 1)
+    ctx.floor("C02.R2", "ExprCompiledBool::Const constructions", len(cons), 1, inventory=True)
     for f, st in cons:
         t = top_fn(F, f)
         good = False
@@ -254,7 +254,7 @@ def r3_folds(ctx, F):
                 ctx.bad("C02.R3", key, "the compiler unwraps the result of the run-time operation `%s`: when it fails "
                                        "the compiler panics instead of leaving the error to run time" % bad[0].name,
                         fn=f, line=c.line)
-    ctx.floor("C02.R3", "unwrap/expect sites inspected in eval::compiler", n_unwrap, 30)
+    ctx.floor("C02.R3", "unwrap/expect sites inspected in eval::compiler", n_unwrap, 30, inventory=True)
     ctx.ok("C02.R3", "no-unwrap-of-evaluation", "%d unwrap/expect sites inspected" % n_unwrap)
 
     # inlining
